@@ -18,7 +18,7 @@ def handleC11 (f : List String) : Res :=
       match pInts impl with
       | some o =>
         let r := specIf "input-unmodified" (unch == "1") r
-        let r := specIf "result-valid-chain" (isChainB o) r
+        let r := specIf "result-valid-chain" (isChainO o) r
         let r := specIf "contains-all-runs" (lc.all fun l => o.contains (2 ^ l.toNat - 1)) r
         let dbl := (List.range lc.length).all fun k => k == 0 || at' lc k == 2 * at' lc (k-1)
         { r with nt := lc.length ≥ 3 && (!isAscending lc || !dbl), tag := s!"asc={if isAscending lc then 1 else 0}" }
